@@ -48,38 +48,48 @@ def lossy(frm, to, ck):
     return False
 
 
+def root_of(path):
+    return re.sub(r'(::\{closure#\d+\})+$', '', path)
+
+
 def inventory(db, rep, R, safe, scope, cfgname):
-    """casts + panic sites over the functions in R"""
+    """casts + panic sites over the functions in R. A function and the closures written inside it are one source-level
+    body: sites are keyed <function>|<kind>|<n-th such site of the function, its own body first, then its closures>, so
+    that turning a closure into a loop (or back) does not rename a site."""
     n = 0
+    groups = {}
     for p in sorted(R):
-        fn = db.fns[p]
-        if not fn.has_mir:
-            continue
+        groups.setdefault(root_of(p), []).append(p)
+    for root, members in sorted(groups.items()):
         ords = {}
-        items = []
-        for bi, b in enumerate(fn.blocks):
-            if b.get('cleanup'):
+        for p in sorted(members, key=lambda q: (q != root, q)):
+            fn = db.fns[p]
+            if not fn.has_mir:
                 continue
-            for s in b['stmts']:
-                if s['k'] == 'assign' and s['rv']['k'] == 'cast' and s['rv']['ck'].split('(')[0] in ('IntToInt', 'FloatToInt'):
-                    if lossy(s['rv']['from'], s['rv']['to'], s['rv']['ck']):
-                        items.append((f"cast:{s['rv']['from']}->{s['rv']['to']}", s['line']))
-            t = b['term']
-            if t['k'] == 'call' and t['f'].get('name') == 'to_u64_digits':
-                items.append(('truncate:to_u64_digits', t['line']))
-        for s in panics.sites(db, fn):
-            items.append((f"{s['kind']}:{s['detail']}", s['line']))
-        for kd, line in items:
-            o = ords.get(kd, 0)
-            ords[kd] = o + 1
-            n += 1
-            ent = safe.get(f'{p}|{kd}')
-            key = f'{p}|{kd}|{o}'
-            if ent is not None and (ent.get('ordinals') is None or o in ent['ordinals']):
-                rep.ob(f'C19.{scope}', key, True, f"table: {ent['reason']}", fn.loc(line), cfgname)
-            else:
-                what = 'lossy conversion' if kd.startswith(('cast', 'truncate')) else 'can panic on a malformed file'
-                rep.ob(f'C19.{scope}', key, False, f'{kd} in {p}: {what}; no disposition in tables/c19_safe.json', fn.loc(line), cfgname)
+            items = []
+            for bi, b in enumerate(fn.blocks):
+                if b.get('cleanup'):
+                    continue
+                for s in b['stmts']:
+                    if s['k'] == 'assign' and s['rv']['k'] == 'cast' and s['rv']['ck'].split('(')[0] in ('IntToInt', 'FloatToInt'):
+                        if lossy(s['rv']['from'], s['rv']['to'], s['rv']['ck']):
+                            items.append((f"cast:{s['rv']['from']}->{s['rv']['to']}", s['line']))
+                t = b['term']
+                if t['k'] == 'call' and t['f'].get('name') == 'to_u64_digits':
+                    items.append(('truncate:to_u64_digits', t['line']))
+            for s in panics.sites(db, fn):
+                items.append((f"{s['kind']}:{s['detail']}", s['line']))
+            for kd, line in items:
+                o = ords.get(kd, 0)
+                ords[kd] = o + 1
+                n += 1
+                ent = safe.get(f'{p}|{kd}') or safe.get(f'{root}|{kd}')
+                key = f'{root}|{kd}|{o}'
+                if ent is not None and (ent.get('ordinals') is None or o in ent['ordinals']):
+                    rep.ob(f'C19.{scope}', key, True, f"table: {ent['reason']}", fn.loc(line), cfgname)
+                else:
+                    what = 'lossy conversion' if kd.startswith(('cast', 'truncate')) else 'can panic on a malformed file'
+                    rep.ob(f'C19.{scope}', key, False, f'{kd} in {p}: {what}; no disposition in tables/c19_safe.json', fn.loc(line), cfgname)
     return n
 
 
